@@ -434,3 +434,42 @@ Proof. exact default_threshold_same_l. Qed.
 Example C18_ex_occupancy_rounding_band :
   flag_f (0x1.6666666666666p-1)%float 14 20 = false /\ flag_q (Qmake 3152519739159347 4503599627370496) 14 20 = true.
 Proof. vm_compute. split; reflexivity. Qed.
+
+(* ==================================================================================================================== *)
+(* segment_time_series(..., drop_zero_weight_segments=True): only all-zero columns go                                  *)
+(* ==================================================================================================================== *)
+(* every (hour, segment) with a weight above zero survives the filter, for any table and any part of the year *)
+Theorem C18_drop_keeps_positive : forall present t s m, In s t -> In m present -> Qle_bool (seg_weight s m) 0 = false ->
+  In s (dropped_table present t).
+Proof. exact drop_keeps_positive. Qed.
+Print Assumptions C18_drop_keeps_positive.
+
+Theorem C18_drop_preserves_positive_row : forall present t m, In m present ->
+  positive_row (dropped_table present t) m = positive_row t m.
+Proof. exact drop_preserves_positive_row. Qed.
+Print Assumptions C18_drop_preserves_positive_row.
+
+(* the dropped columns are zero on every hour of the index (all four tables) *)
+Theorem C18_dropped_columns_all_zero : forall type t, In (type, t) segment_tables -> forall present s m, In s t ->
+  kept_segment present s = false -> In m present -> In m months -> (seg_weight s m == 0)%Q.
+Proof. exact dropped_all_zero_l. Qed.
+Print Assumptions C18_dropped_columns_all_zero.
+
+(* three_month_weighted on any part of the year, filtered or not: an hour keeps exactly three weights above zero,
+   one 1 and two 1/2 (which segments they are: C18_weights_partition) *)
+Theorem C18_weighted_row_after_drop : forall present m, In m months -> In m present ->
+  positive_row (dropped_table present (tbl "three_month_weighted")) m = positive_row (tbl "three_month_weighted") m /\
+  exists a b c, positive_row (tbl "three_month_weighted") m = [a; b; c] /\
+    (Qeq_bool (snd a) 1 && Qeq_bool (snd b) (1 # 2) && Qeq_bool (snd c) (1 # 2)
+     || Qeq_bool (snd a) (1 # 2) && Qeq_bool (snd b) 1 && Qeq_bool (snd c) (1 # 2)
+     || Qeq_bool (snd a) (1 # 2) && Qeq_bool (snd b) (1 # 2) && Qeq_bool (snd c) 1) = true.
+Proof. exact weighted_positive_row_l. Qed.
+Print Assumptions C18_weighted_row_after_drop.
+
+(* an index that covers January only keeps the three segments January has weight in -- the two neighbours hold only 1/2 *)
+Example C18_ex_drop_january_only :
+  map seg_name (dropped_table [1]%Z (tbl "three_month_weighted"))
+  = ["dec-jan-feb-weighted"; "jan-feb-mar-weighted"; "nov-dec-jan-weighted"] /\
+  segment_weights_on "three_month_weighted" true [1]%Z 1
+  = Some [("dec-jan-feb-weighted", 1%Q); ("jan-feb-mar-weighted", (1 # 2)%Q); ("nov-dec-jan-weighted", (1 # 2)%Q)].
+Proof. vm_compute. split; reflexivity. Qed.
